@@ -155,7 +155,12 @@ def handle : Handler := fun j => do
     | .error e => pure (errJson e)
     | .ok vr =>
       match makeProduct ex vr (← jstr j "flavor") (Path.ofStr (← jstr j "db")) with
-      | .ok p => pure (Json.mkObj [("prod", prodToJson p)])
+      | .ok p =>
+        -- what the cache holds: `ProductStack.addProduct` clones the product and resolves it once more
+        let again : Json := match resolvePaths ex (p.init ex) with
+          | .ok p2 => prodToJson p2
+          | .error e => errJson e
+        pure (Json.mkObj [("prod", prodToJson p), ("cached", again)])
       | .error e => pure (errJson e)
   | "resolveprod" =>
     let ex ← exOfJson j
